@@ -591,15 +591,21 @@ func c01Eval(c c01Case) (ok bool, sig, detail string) {
 		}
 		return c01Roundtrip([]gts.Sequence{gb}, fmt.Sprintf("header subset mask %#x", m))
 	case "field2":
-		// two fields set together (interactions between neighbouring fields of the flat file)
-		fs := strings.SplitN(c.Field, "+", 2)
-		if len(fs) != 2 || len(c.Values) != 2 || !c01Writable(fs[0], c.Values[0]) || !c01Writable(fs[1], c.Values[1]) {
-			return true, "", "outside the writable domain"
+		// two or three fields set together (interactions between neighbouring fields of the flat file)
+		fs := strings.Split(c.Field, "+")
+		if len(fs) < 2 || len(c.Values) != len(fs) {
+			return true, "", "bad case"
 		}
 		gb := c01Base()
-		c01ApplyField(&gb, fs[0], c.Values[0])
-		c01ApplyField(&gb, fs[1], c.Values[1])
-		return c01Roundtrip([]gts.Sequence{gb}, fmt.Sprintf("fields %s = %q, %s = %q", fs[0], c.Values[0], fs[1], c.Values[1]))
+		what := "fields"
+		for k := range fs {
+			if !c01Writable(fs[k], c.Values[k]) {
+				return true, "", "outside the writable domain"
+			}
+			c01ApplyField(&gb, fs[k], c.Values[k])
+			what += fmt.Sprintf(" %s = %q", fs[k], c.Values[k])
+		}
+		return c01Roundtrip([]gts.Sequence{gb}, what)
 	case "field":
 		if !c01Writable(c.Field, c.Value) {
 			return true, "", ""
@@ -878,7 +884,7 @@ func init() {
 	register(&Check{ID: "C01", Level: "model_checking", Quick: 240 * time.Second, Thor: 40 * time.Minute,
 		Run: func(r *engine.Run) bool {
 			thorough := r.Tier == "thorough"
-			r.Rule = "write->read->compare->write on the real writer/scanner for: every string of <=3 symbols over {a,space,.,;,:,\",\\,newline,%} in each of 22 fields (one field varied at a time, and every pair of fields at three representative values each; every subset of 12 optional blocks of a record present; writable-domain predicate per field), long wrapping values, lists of 0..3 items, 0..2 references with every sub-field subset, every calendar date of 1900-2100 (quick) / 1-9999 (thorough), every residue count 0..130, feature tables of 0..3 features over a location menu x 11 qualifier shapes, the corpus, streams of 1..3 records, every program of <=2 (quick) / <=3 (thorough) edit operations from every seed (BFS, de-duplicated on the canonical record), and every history of <=3 registry events; distinct key = canonical record dump; non-trivial = record has >=1 feature or was reached by >=1 operation"
+			r.Rule = "write->read->compare->write on the real writer/scanner for: every string of <=3 symbols over {a,space,.,;,:,\",\\,newline,%} in each of 22 fields (one field varied at a time, and every pair of fields (and every triple of ten header fields) at three representative values each; every subset of 12 optional blocks of a record present; writable-domain predicate per field), long wrapping values, lists of 0..3 items, 0..2 references with every sub-field subset, every calendar date of 1900-2100 (quick) / 1-9999 (thorough), every residue count 0..130, feature tables of 0..3 features over a location menu x 11 qualifier shapes, the corpus, streams of 1..3 records, every program of <=2 (quick) / <=3 (thorough) edit operations from every seed (BFS, de-duplicated on the canonical record), and every history of <=3 registry events; distinct key = canonical record dump; non-trivial = record has >=1 feature or was reached by >=1 operation"
 			complete := true
 			eval := func(c c01Case, size int) {
 				r.Evals.Add(1)
@@ -923,6 +929,23 @@ func init() {
 					for _, v1 := range c01PairValues(f1) {
 						for _, v2 := range c01PairValues(f2) {
 							eval(c01Case{Kind: "field2", Field: f1 + "+" + f2, Values: []string{v1, v2}}, 550)
+						}
+					}
+				}
+			}
+			// triples of the header fields that are neighbours in the flat file
+			{
+				hdr := []string{"definition", "accession", "version", "dblink-value", "keyword-last", "source", "organism", "taxon", "comment", "ref-info"}
+				for i := 0; i < len(hdr); i++ {
+					for j := i + 1; j < len(hdr); j++ {
+						for k := j + 1; k < len(hdr); k++ {
+							for _, v1 := range c01PairValues(hdr[i]) {
+								for _, v2 := range c01PairValues(hdr[j]) {
+									for _, v3 := range c01PairValues(hdr[k]) {
+										eval(c01Case{Kind: "field2", Field: hdr[i] + "+" + hdr[j] + "+" + hdr[k], Values: []string{v1, v2, v3}}, 552)
+									}
+								}
+							}
 						}
 					}
 				}
